@@ -24,13 +24,17 @@ MANIFEST = {
             "Gallina model of _run_deferred's callback graph, _run_cleanups, _blocking_run_deferred and _run_core on a "
             "virtual clock: sequencing (a stage starts when its predecessor fired, cleanups LIFO), exactly one "
             "outcome, success iff everything completed cleanly before the cut, timeout/interrupt => error (interrupt "
-            "also stop()), reactor empty and log observers restored on every path. Tied to /repo on every run by "
-            "executing the real runner over a virtual-time reactor and the model inside coqc on the same generated "
-            "programs; the oracle for a failing input is the executable statement spec_okb, proved to imply Spec.",
+            "also stop(), nothing else does), every cleanup run and none left registered when nothing cut the run, "
+            "Spinner._clean empties any delayed-call queue, log observers restored for any number of pre-installed "
+            "observers on every path. Tied to /repo on every run by executing the real runner over a virtual-time "
+            "reactor (and a sample on the real global reactor) and the model inside coqc on the same generated "
+            "programs; the oracle for a failing input is the executable statement spec_okb, proved equivalent to Spec.",
     "note": "PARTIAL: the reactor, Twisted's Deferred/inlineCallbacks sequencing (built into the model, tied to the code "
             "only by correspondence), garbage collection of Deferreds (DebugInfo.__del__, replaced by 'a failed "
             "Deferred without errback at the end of the run'), Twisted's log publisher and real signal delivery are "
-            "modelled, not verified; the real global reactor is only sampled. For the ForBrokenTwisted variant a "
+            "modelled, not verified; the real global reactor is only sampled (quick 20 / thorough 300 programs with "
+            "delays 0 / never / far, no interrupts; judged by the same model and spec_okb in coqc). 'Nothing left "
+            "scheduled' is judged on the observed number of leftover calls that never ran. For the ForBrokenTwisted variant a "
             "stage Deferred due exactly at the cut instant is outside the model (the obligatory reactor iterations "
             "would run it after the result is decided). Trusted: Coq kernel + vm_compute; the harness (generators, "
             "drivers, virtual reactor, Gallina printer). All theorems closed under the global context.",
@@ -38,7 +42,7 @@ MANIFEST = {
                  "correspondence in coqc over a virtual-time reactor",
     "ref": "6 C14",
 }
-RULE = ("programs: setUp / test / tearDown / 0-2 cleanups, each stage one of return, raise (error, failure, skip, "
+RULE = ("programs: setUp / test / tearDown / 0-3 cleanups, each stage one of return, raise (error, failure, skip, "
         "KeyboardInterrupt), Deferred firing/failing after a delay in {<,=,>} of what is left of the timeout, never, "
         "decorated with 0-2 leftover delayed calls / a self-rescheduling poller / a logged error / a dropped failed "
         "Deferred; timeout; optional "
@@ -99,8 +103,13 @@ def drive(case):
     gc.collect()
     _runtest._log_observer.flushErrors()
     del _SINK[:]
-    reactor = VReactor([], install_signals=False,
-                       interrupts=[] if case["interrupt"] is None else [case["interrupt"]])
+    real = bool(case.get("real"))
+    if real:
+        # the real global reactor (extra_checks): the timeout is REAL_TIMEOUT seconds, delays are 0 or "far"
+        from twisted.internet import reactor
+    else:
+        reactor = VReactor([], install_signals=False,
+                           interrupts=[] if case["interrupt"] is None else [case["interrupt"]])
     stage_log = []
     keep = []
     left = [0, 0]      # leftover delayed calls: scheduled, run
@@ -110,7 +119,7 @@ def drive(case):
     before = list(globalLogPublisher._observers)
     try:
         def behave(tc, sid, st):
-            stage_log.append([sid, int(reactor.seconds())])
+            stage_log.append([sid, 0 if real else int(reactor.seconds())])
             for dl in st["leave"]:
                 left[0] += 1
                 keep.append(reactor.callLater(dl, lambda: left.__setitem__(1, left[1] + 1)))
@@ -143,7 +152,8 @@ def drive(case):
 
         class T(testtools.TestCase):
             run_tests_with = runner_cls.make_factory(
-                reactor=reactor, timeout=case["timeout"], suppress_twisted_logging=case["suppress"],
+                reactor=reactor, timeout=REAL_TIMEOUT if real else case["timeout"],
+                suppress_twisted_logging=case["suppress"],
                 store_twisted_logs=case["store"])
 
             def setUp(self):
@@ -185,6 +195,90 @@ def drive(case):
         del _SINK[:]
 
 
+# ---------------- a sample on the real global reactor ----------------
+REAL_TIMEOUT = 0.5      # seconds; stands for the virtual timeout of the case
+FAR = 100               # a leftover delayed call that is never due within a run (seconds / ticks)
+_REAL = r'''
+import json, sys
+from vcheck.props import c14
+out = []
+for c in json.loads(sys.argv[1]):
+    try:
+        out.append({"obs": c14.drive(c)})
+    except BaseException as e:
+        out.append({"crash": "%s: %s" % (type(e).__name__, e)})
+print(json.dumps(out))
+'''
+
+
+def real_cases(rng, n):
+    """programs whose outcome machine load cannot flip: every Deferred fires at once (delay 0) or never, every
+    leftover is far in the future; no interrupt (real signal delivery is C15's sample)"""
+    def stage(k):
+        r = rng.random()
+        # "never" costs the whole real timeout: keep it rare
+        ret = (("return",) if r < 0.3 else ("raise", rng.choice(CLS)) if r < 0.42 else
+               ("later", 0, None) if r < 0.8 else ("later", 0, rng.choice(CLS)) if r < 0.95 else ("never",))
+        return st(ret, [FAR] if rng.random() < 0.12 else [], rng.random() < 0.1, rng.random() < 0.1)
+    fixed = [mk(), mk(body=st(("later", 0, None)), cleanups=[st(("later", 0, None)), st(("later", 0, "err"))]),
+             mk(body=st(("never",)), cleanups=[st()]), mk(body=st(("later", 0, None), leave=[FAR])),
+             mk(body=st(("later", 0, None), logerr=True)), mk(teardown=st(("later", 0, None), drop=True)),
+             mk(cleanups=[st(("raise", "kbd")), st(("later", 0, None))]),
+             mk(setup=st(("later", 0, "skip")), cleanups=[st(("later", 0, None)), st()]),
+             mk(body=st(("later", 0, "fail")), broken=True, suppress=False, store=False, nobs=2),
+             mk(body=st(("never",), leave=[FAR], logerr=True), broken=True, nobs=1)]
+    cases = fixed[:n]
+    while len(cases) < n:
+        cases.append(mk(stage(0), stage(1), stage(2), [stage(3) for _ in range(rng.choice([0, 1, 2, 2, 3]))],
+                        broken=rng.random() < 0.4, suppress=rng.random() < 0.6, store=rng.random() < 0.6,
+                        nobs=rng.choice([0, 1, 2])))
+    for c in cases:
+        c["real"] = True
+    return cases
+
+
+def extra_checks(tier, rng):
+    """the real runner on the REAL global reactor (subprocesses), judged like every other case: by the model and by
+    spec_okb inside coqc"""
+    import tempfile
+    n = 20 if tier == "quick" else 300
+    cases = real_cases(rng, n)
+    repo = os.environ.get("VERIF_REPO", "/repo")
+    harness = os.path.dirname(os.path.dirname(os.path.dirname(os.path.abspath(__file__))))
+    env = dict(os.environ, PYTHONPATH=repo + os.pathsep + harness, PYTHONHASHSEED="0")
+    chunks = [cases[lo:lo + 25] for lo in range(0, len(cases), 25)]
+    procs = [subprocess.Popen([sys.executable, "-c", _REAL, json.dumps(ch)], stdout=subprocess.PIPE,
+                              stderr=subprocess.PIPE, text=True, env=env) for ch in chunks]
+    outs = []
+    for ch, pr in zip(chunks, procs):
+        try:
+            so, se = pr.communicate(timeout=600)
+            outs += json.loads(so.strip().splitlines()[-1])
+        except Exception as e:   # noqa
+            pr.kill()
+            outs += [{"crash": "real-reactor sample process failed: %r" % (e,)}] * len(ch)
+    res = [None] * len(cases)
+    idx = [k for k, o in enumerate(outs) if "obs" in o]
+    for k, o in enumerate(outs):
+        if "obs" not in o:
+            res[k] = {"ok": False, "what": "real reactor: crash", "case": cases[k], "observed": o}
+    if idx:
+        wd = tempfile.mkdtemp(prefix="c14real-")
+        try:
+            nseen, dis, vio, _ = q.run_shards(wd, CORR, [term(cases[k], outs[k]["obs"]) for k in idx],
+                                              extra_requires=REQUIRES, tag="real")
+        finally:
+            import shutil
+            shutil.rmtree(wd, ignore_errors=True)
+        for j, k in enumerate(idx):
+            ok = j not in dis and j not in vio and nseen == len(idx)
+            res[k] = {"ok": ok, "what": "real reactor: " + ("agrees with the model and meets spec_okb" if ok else
+                                                            "violates spec_okb" if j in vio else
+                                                            "differs from the model"),
+                      "case": cases[k], "observed": outs[k]["obs"]}
+    return res
+
+
 # ---------------- Gallina ----------------
 CLS_T = {"err": "CErr", "fail": "CFail", "skip": "CSkip", "kbd": "CKbd"}
 EV_T = {"startTest": "StartTest", "addSuccess": "AddSuccess", "addError": "AddError", "addFailure": "AddFailure",
@@ -224,7 +318,7 @@ def term(case, o):
 
 def perturb(case, o):
     o = dict(o)
-    o["cleanups_left"] = o["cleanups_left"] + 1
+    o["pending"] = o["pending"] + 1
     return o
 
 
@@ -315,6 +409,17 @@ def generate(rng, tier):
         mk(body=st(("never",)), interrupt=7, nobs=2),
         mk(body=st(("later", 3, None)), teardown=st(("later", 2, "err")), nobs=2, suppress=False, store=False),
         mk(body=st(("later", T, None))), mk(body=st(("later", T - 1, None)), teardown=st(("later", 1, None))),
+        # degenerate timeouts: synchronous stages finish before the reactor runs a single delayed call
+        mk(timeout=0), mk(timeout=0, cleanups=[st(("raise", "err"))]), mk(timeout=0, body=st(("later", 0, None))),
+        mk(timeout=1, body=st(("later", 0, None)), teardown=st(("later", 0, "fail"))),
+        mk(timeout=1, body=st(("later", 1, None))), mk(timeout=0, interrupt=0, body=st(("later", 0, None))),
+        mk(timeout=2, interrupt=0, body=st(leave=[0])), mk(timeout=2, interrupt=0),
+        # two failing stages; a failure only in a cleanup; an unhandled failure in a dropped Deferred + a leftover
+        mk(body=st(("later", 1, "fail")), teardown=st(("later", 1, "err")), cleanups=[st(("later", 1, "fail"))]),
+        mk(body=st(("later", 1, None)), cleanups=[st(), st(("later", 2, "err")), st(("later", 1, None))]),
+        mk(body=st(("later", 2, None), drop=True), teardown=st(leave=[1, T + 3])),
+        mk(body=st(("later", 2, None), leave=[1]), teardown=st(("later", 1, None))),        # the leftover has run
+        mk(body=st(("later", T + 1, None), leave=[1]), cleanups=[st()]),                    # fires after the timeout
     ]
     # a leftover that is already due and reschedules itself when it fires (callLater(0, poll) / LoopingCall(0)):
     # never clean, and the reactor must be empty afterwards - also when the obligatory iterations ran it
@@ -376,6 +481,14 @@ def nontrivial(case):
 
 
 def shrink(case):
+    """one-step reductions that stay inside wf (Spec.C14.wfb): a smaller ForBrokenTwisted case with a stage Deferred
+    due exactly at the cut instant is outside the model and would be a bogus witness"""
+    for c in _shrink(case):
+        if not c["broken"] or tie_free(c):
+            yield c
+
+
+def _shrink(case):
     def rep(**kw):
         c = dict(case)
         c.update(kw)
@@ -413,8 +526,28 @@ def shrink(case):
             yield put(dict(s, poll=None))
 
 
+def _raises(s):
+    return s["ret"][0] == "raise" or (s["ret"][0] == "later" and s["ret"][2] is not None)
+
+
+def _simulate(case):
+    """(instant at which the last planned stage fired or None when the run is cut first, start instants)"""
+    C, t, starts = cut_instant(case), 0, []
+    for s in plan(case):
+        starts.append(t)
+        r = s["ret"]
+        if r[0] == "never" or (r[0] == "later" and t + r[1] >= C):
+            return None, starts
+        if r[0] == "later":
+            t += r[1]
+    return t, starts
+
+
 def distribution(cases):
     d = {"variant": {"plain": 0, "broken": 0}, "suppress": 0, "store": 0, "with_interrupt": 0, "cleanups": {},
+         "failing_stages": {}, "failure_only_in_a_cleanup": 0, "kbd_in_a_cleanup": 0,
+         "ending": {"completed": 0, "timeout": 0, "interrupt": 0},
+         "completed_with_leftover_still_scheduled": 0, "completed_with_leftover_already_run": 0,
          "stage_ret": {}, "with_leftovers": 0, "with_logged_error": 0, "with_dropped_failure": 0, "with_poller": 0,
          "failed_setup_with_async_cleanup": 0,
          "later_vs_cut": {"<": 0, "=": 0, ">": 0}, "extra_observers": {}}
@@ -429,6 +562,20 @@ def distribution(cases):
         C, t = cut_instant(c), 0
         alive = True
         sr = c["setup"]["ret"]
+        pl = plan(c)
+        nfail = sum(_raises(s) for s in pl)
+        d["failing_stages"][min(nfail, 3)] = d["failing_stages"].get(min(nfail, 3), 0) + 1
+        ncl = len(c["cleanups"])
+        d["failure_only_in_a_cleanup"] += nfail > 0 and not any(_raises(s) for s in pl[:len(pl) - ncl])
+        d["kbd_in_a_cleanup"] += any(s["ret"][-1] == "kbd" for s in c["cleanups"])
+        end, starts = _simulate(c)
+        d["ending"]["completed" if end is not None else
+                    "interrupt" if c["interrupt"] is not None and c["interrupt"] <= c["timeout"] else "timeout"] += 1
+        if end is not None:
+            d["completed_with_leftover_still_scheduled"] += any(
+                t0 + dl > end for s, t0 in zip(pl, starts) for dl in s["leave"])
+            d["completed_with_leftover_already_run"] += any(
+                t0 + dl < end for s, t0 in zip(pl, starts) for dl in s["leave"])
         d["failed_setup_with_async_cleanup"] += (sr[0] == "raise" or (sr[0] == "later" and sr[2] is not None)) and \
             any(x["ret"][0] in ("later", "never") for x in c["cleanups"])
         for s in plan(c):
